@@ -1,6 +1,7 @@
 (* ExprSem.v — the pure expression fragment: literals, global variables,
-   binary and unary operators, at any nesting depth.  Its denotation [den],
-   and that the definitional semantics (Sem.eval) computes exactly it. *)
+   binary and unary operators, array literals, indexing and slicing, at any
+   nesting depth.  Its denotation [den], and that the definitional semantics
+   (Sem.eval) computes exactly it. *)
 Require Import Calc.Base Calc.Bytecode Calc.Value Calc.FloatText Calc.Ast Calc.Compile Calc.VM Calc.Sem.
 Require Import Lia Floats.
 Open Scope Z_scope.
@@ -17,13 +18,28 @@ Fixpoint pure (e : node) : bool :=
   | NFloat f => negb (is_negzero f)        (* the lexer has no signed literals *)
   | NBin op l r => match binop_opcode op with Some _ => pure l && pure r | None => false end
   | NUn op t => unop_ok op && pure t
+  | NList l => forallb pure l
+  | NIndexAt a i => pure a && pure i
+  | NIndexFromTo a f t => pure a && pure f && pure t
   | _ => false
   end.
 
 Definition gval (G : list (string * value)) (g : string) : value :=
   match sassoc_get G g with Some v => v | None => VNil end.
 
-(* the value of a pure expression: operands left to right, both before the operator *)
+(* the values of a list of expressions, left to right, up to the first failure *)
+Definition seq_res (f : node -> res value) : list node -> res (list value) :=
+  fix go (l : list node) : res (list value) :=
+    match l with
+    | [] => Ok []
+    | x :: r =>
+        match f x with
+        | Fail e => Fail e
+        | Ok v => match go r with Fail e => Fail e | Ok vs => Ok (v :: vs) end
+        end
+    end.
+
+(* the value of a pure expression: operands left to right, all before the operator *)
 Fixpoint den (G : list (string * value)) (e : node) : res value :=
   match e with
   | NInt i => Ok (VInt i)
@@ -48,6 +64,25 @@ Fixpoint den (G : list (string * value)) (e : node) : res value :=
       | Fail e => Fail e
       | Ok a => match unop_sem op a with Some r => r | None => Fail ErrType end
       end
+  | NList l =>
+      match seq_res (den G) l with
+      | Ok vs => Ok (VArr vs)
+      | Fail e => Fail e
+      end
+  | NIndexAt a i =>
+      match den G a with
+      | Fail e => Fail e
+      | Ok av => match den G i with Fail e => Fail e | Ok iv => Index1 av iv end
+      end
+  | NIndexFromTo a f t =>
+      match den G a with
+      | Fail e => Fail e
+      | Ok av =>
+          match den G f with
+          | Fail e => Fail e
+          | Ok fv => match den G t with Fail e => Fail e | Ok tv => Index2 av fv tv end
+          end
+      end
   | _ => Fail ErrType
   end.
 
@@ -55,10 +90,50 @@ Fixpoint height (e : node) : nat :=
   match e with
   | NBin _ l r => S (Nat.max (height l) (height r))
   | NUn _ t => S (height t)
+  | NList l => S (fold_right (fun x acc => Nat.max (height x) acc) 0%nat l)
+  | NIndexAt a i => S (Nat.max (height a) (height i))
+  | NIndexFromTo a f t => S (Nat.max (height a) (Nat.max (height f) (height t)))
   | _ => 1%nat
   end.
 
 Definition ctl_of (r : res value) : ctl := match r with Ok v => CVal v | Fail e => CErr e end.
+
+(* ---- induction over pure expressions ---- *)
+Section PureInd.
+  Variable Q : node -> Prop.
+  Hypothesis HInt : forall i, Q (NInt i).
+  Hypothesis HFloat : forall f, is_negzero f = false -> Q (NFloat f).
+  Hypothesis HStr : forall s, Q (NStr s).
+  Hypothesis HBool : forall b, Q (NBool b).
+  Hypothesis HName : forall g, Q (NName g).
+  Hypothesis HBin : forall op c l r, binop_opcode op = Some c -> pure l = true -> pure r = true ->
+    Q l -> Q r -> Q (NBin op l r).
+  Hypothesis HUn : forall op t, unop_ok op = true -> pure t = true -> Q t -> Q (NUn op t).
+  Hypothesis HList : forall l, forallb pure l = true -> Forall Q l -> Q (NList l).
+  Hypothesis HIx1 : forall a i, pure a = true -> pure i = true -> Q a -> Q i -> Q (NIndexAt a i).
+  Hypothesis HIx2 : forall a f t, pure a = true -> pure f = true -> pure t = true ->
+    Q a -> Q f -> Q t -> Q (NIndexFromTo a f t).
+
+  Fixpoint pure_induction (e : node) : pure e = true -> Q e.
+  Proof.
+    destruct e; intros Hp; try discriminate Hp; cbn [pure] in Hp.
+    - apply HInt.
+    - apply HFloat. apply negb_true_iff. exact Hp.
+    - apply HStr.
+    - apply HBool.
+    - apply HName.
+    - destruct (binop_opcode op) as [c|] eqn:E; [|discriminate Hp].
+      apply andb_prop in Hp. destruct Hp as [H1 H2].
+      apply (HBin op c e1 e2 E H1 H2); apply pure_induction; assumption.
+    - apply andb_prop in Hp. destruct Hp as [H1 H2]. apply (HUn op e H1 H2). apply pure_induction. exact H2.
+    - apply andb_prop in Hp. destruct Hp as [H1 H2]. apply (HIx1 e1 e2 H1 H2); apply pure_induction; assumption.
+    - apply andb_prop in Hp. destruct Hp as [H12 H3]. apply andb_prop in H12. destruct H12 as [H1 H2].
+      apply (HIx2 e1 e2 e3 H1 H2 H3); apply pure_induction; assumption.
+    - apply (HList l Hp). induction l as [|x r IHr]; [constructor|].
+      cbn [forallb] in Hp. apply andb_prop in Hp. destruct Hp as [Hx Hr].
+      constructor; [apply pure_induction; exact Hx|apply IHr; exact Hr].
+  Defined.
+End PureInd.
 
 Lemma unop_ok_sem op a : unop_ok op = true -> exists r, unop_sem op a = Some r.
 Proof.
@@ -67,31 +142,84 @@ Proof.
   destruct (String.eqb op "!"); [eauto|]. destruct (String.eqb op "~"); [eauto|]. discriminate.
 Qed.
 
+(* the list evaluator of Sem.eval, named *)
+Definition ev_list_of (fuel' : nat) (e : env) :=
+  fix go (l : list node) (st : sstate) (acc : list value) (k : sstate -> list value -> comp) : comp :=
+    match l with
+    | [] => k st (rev acc)
+    | x :: r => bind (eval fuel' x e st) (fun st' v => go r st' (v :: acc) k)
+    end.
+
+Lemma eval_list f l e st :
+  eval (S f) (NList l) e st = ev_list_of f e l st [] (fun st' vs => Done st' (CVal (VArr vs))).
+Proof. reflexivity. Qed.
+
+Lemma ev_list_pure f e : forall l,
+  Forall (fun x => forall st, eval f x e st = Done st (ctl_of (den (s_globals st) x))) l ->
+  forall st acc k,
+    ev_list_of f e l st acc k =
+    match seq_res (den (s_globals st)) l with
+    | Ok vs => k st (rev acc ++ vs)
+    | Fail err => Done st (CErr err)
+    end.
+Proof.
+  induction l as [|x r IH]; intros HF st acc k; cbn [ev_list_of seq_res].
+  - rewrite app_nil_r. reflexivity.
+  - inversion HF as [|x' r' Hx Hr]; subst. rewrite Hx.
+    destruct (den (s_globals st) x) as [v|err]; cbn [ctl_of bind]; [|reflexivity].
+    rewrite (IH Hr st (v :: acc) k).
+    destruct (seq_res (den (s_globals st)) r) as [vs|err]; [|reflexivity].
+    cbn [rev]. rewrite <- app_assoc. reflexivity.
+Qed.
+
+Lemma height_in x l : In x l -> (height x <= fold_right (fun y acc => Nat.max (height y) acc) 0 l)%nat.
+Proof.
+  induction l as [|y r IH]; intros H; [destruct H|]. cbn [fold_right].
+  destruct H as [->|H]; [lia|]. specialize (IH H). lia.
+Qed.
+
 (* the definitional semantics computes the denotation, in any environment, without touching the state *)
 Theorem eval_pure : forall e, pure e = true -> forall fuel env st, (height e <= fuel)%nat ->
   eval fuel e env st = Done st (ctl_of (den (s_globals st) e)).
 Proof.
-  induction e; intros Hp fuel env st Hf; try discriminate Hp;
-    (destruct fuel as [|fuel]; [cbn [height] in Hf; lia|]).
-  - reflexivity.
-  - reflexivity.
-  - reflexivity.
-  - reflexivity.
-  - reflexivity.
+  apply (pure_induction (fun e => forall fuel env st, (height e <= fuel)%nat ->
+                                   eval fuel e env st = Done st (ctl_of (den (s_globals st) e))));
+    try (intros; destruct fuel as [|fuel]; [cbn [height] in *; lia|]; reflexivity).
   - (* NBin *)
-    cbn [pure] in Hp. cbn [eval den].
-    destruct (binop_opcode op) as [c|]; [|discriminate].
-    apply andb_prop in Hp. destruct Hp as [Hl Hr]. cbn [height] in Hf.
-    rewrite (IHe1 Hl fuel env st ltac:(lia)).
-    destruct (den (s_globals st) e1) as [a|err]; cbn [ctl_of bind]; [|reflexivity].
-    rewrite (IHe2 Hr fuel env st ltac:(lia)).
-    destruct (den (s_globals st) e2) as [b|err]; cbn [ctl_of bind]; [|reflexivity].
+    intros op c l r Hc Hl Hr IHl IHr fuel env st Hf. destruct fuel as [|fuel]; [cbn [height] in Hf; lia|].
+    cbn [eval den height] in *. rewrite Hc.
+    rewrite (IHl fuel env st ltac:(lia)).
+    destruct (den (s_globals st) l) as [a|err]; cbn [ctl_of bind]; [|reflexivity].
+    rewrite (IHr fuel env st ltac:(lia)).
+    destruct (den (s_globals st) r) as [b|err]; cbn [ctl_of bind]; [|reflexivity].
     destruct (apply_binop c a b); reflexivity.
   - (* NUn *)
-    cbn [pure] in Hp. apply andb_prop in Hp. destruct Hp as [Ho Ht]. cbn [eval den height] in *.
-    rewrite (IHe Ht fuel env st ltac:(lia)).
-    destruct (den (s_globals st) e) as [a|err]; cbn [ctl_of bind]; [|reflexivity].
+    intros op t Ho Ht IHt fuel env st Hf. destruct fuel as [|fuel]; [cbn [height] in Hf; lia|].
+    cbn [eval den height] in *. rewrite (IHt fuel env st ltac:(lia)).
+    destruct (den (s_globals st) t) as [a|err]; cbn [ctl_of bind]; [|reflexivity].
     destruct (unop_ok_sem op a Ho) as [r Er]. rewrite Er. destruct r; reflexivity.
+  - (* NList *)
+    intros l Hp HF fuel env st Hf. destruct fuel as [|fuel]; [cbn [height] in Hf; lia|].
+    rewrite eval_list. cbn [height] in Hf.
+    rewrite (ev_list_pure fuel env l).
+    + cbn [den rev app]. destruct (seq_res (den (s_globals st)) l); reflexivity.
+    + rewrite Forall_forall in *. intros x Hx st'. apply (HF x Hx). pose proof (height_in x l Hx). lia.
+  - (* NIndexAt *)
+    intros a i Ha Hi IHa IHi fuel env st Hf. destruct fuel as [|fuel]; [cbn [height] in Hf; lia|].
+    cbn [eval den height] in *. rewrite (IHa fuel env st ltac:(lia)).
+    destruct (den (s_globals st) a) as [av|err]; cbn [ctl_of bind]; [|reflexivity].
+    rewrite (IHi fuel env st ltac:(lia)).
+    destruct (den (s_globals st) i) as [iv|err]; cbn [ctl_of bind]; [|reflexivity].
+    destruct (Index1 av iv); reflexivity.
+  - (* NIndexFromTo *)
+    intros a f t Ha Hff Ht IHa IHf IHt fuel env st Hf. destruct fuel as [|fuel]; [cbn [height] in Hf; lia|].
+    cbn [eval den height] in *. rewrite (IHa fuel env st ltac:(lia)).
+    destruct (den (s_globals st) a) as [av|err]; cbn [ctl_of bind]; [|reflexivity].
+    rewrite (IHf fuel env st ltac:(lia)).
+    destruct (den (s_globals st) f) as [fv|err]; cbn [ctl_of bind]; [|reflexivity].
+    rewrite (IHt fuel env st ltac:(lia)).
+    destruct (den (s_globals st) t) as [tv|err]; cbn [ctl_of bind]; [|reflexivity].
+    destruct (Index2 av fv tv); reflexivity.
 Qed.
 
 (* ---- syntactic equality as the compiler tests it ---- *)
@@ -109,32 +237,53 @@ Proof.
        destruct (Pos.compare_spec ma mb); try discriminate H; subst; reflexivity).
 Qed.
 
-Lemma node_eqb_pure : forall l r, pure l = true -> pure r = true -> node_eqb l r = true -> l = r.
+(* node_eqb's list comparison, named *)
+Definition list_eqb_of := fix go (l m : list node) {struct l} : bool :=
+  match l, m with
+  | [], [] => true
+  | x :: l', y :: m' => node_eqb x y && go l' m'
+  | _, _ => false
+  end.
+
+Lemma node_eqb_list l m : node_eqb (NList l) (NList m) = list_eqb_of l m.
+Proof. reflexivity. Qed.
+
+Lemma node_eqb_pure : forall l, pure l = true -> forall r, pure r = true -> node_eqb l r = true -> l = r.
 Proof.
-  induction l; intros r Hl Hr H; try discriminate Hl; destruct r; try discriminate H; try discriminate Hr;
-    cbn [node_eqb] in H; cbn [pure] in Hl, Hr.
-  - apply Z.eqb_eq in H. subst. reflexivity.
-  - apply negb_true_iff in Hl. apply negb_true_iff in Hr. rewrite (float_eqb_eq _ _ Hl Hr H). reflexivity.
-  - apply String.eqb_eq in H. subst. reflexivity.
-  - apply Bool.eqb_prop in H. subst. reflexivity.
-  - apply String.eqb_eq in H. subst. reflexivity.
-  - apply andb_prop in H. destruct H as [H H2]. apply andb_prop in H. destruct H as [H0 H1].
-    apply String.eqb_eq in H0. subst.
-    destruct (binop_opcode op0); [|discriminate].
-    apply andb_prop in Hl. destruct Hl. apply andb_prop in Hr. destruct Hr.
-    rewrite (IHl1 r1), (IHl2 r2); auto.
-  - apply andb_prop in H. destruct H as [H0 H1]. apply String.eqb_eq in H0. subst.
-    apply andb_prop in Hl. destruct Hl. apply andb_prop in Hr. destruct Hr.
-    rewrite (IHl r); auto.
+  apply (pure_induction (fun l => forall r, pure r = true -> node_eqb l r = true -> l = r)).
+  - intros i r Hr H. destruct r; try discriminate H. cbn [node_eqb] in H. apply Z.eqb_eq in H. subst. reflexivity.
+  - intros f Hf r Hr H. destruct r; try discriminate H. cbn [node_eqb pure] in *.
+    apply negb_true_iff in Hr. rewrite (float_eqb_eq _ _ Hf Hr H). reflexivity.
+  - intros s r Hr H. destruct r; try discriminate H. cbn [node_eqb] in H. apply String.eqb_eq in H. subst. reflexivity.
+  - intros b r Hr H. destruct r; try discriminate H. cbn [node_eqb] in H. apply Bool.eqb_prop in H. subst. reflexivity.
+  - intros g r Hr H. destruct r; try discriminate H. cbn [node_eqb] in H. apply String.eqb_eq in H. subst. reflexivity.
+  - intros op c l1 l2 Hc H1 H2 IH1 IH2 r Hr H. destruct r; try discriminate H. cbn [node_eqb pure] in *.
+    apply andb_prop in H. destruct H as [H H22]. apply andb_prop in H. destruct H as [H0 H11].
+    apply String.eqb_eq in H0. subst. rewrite Hc in Hr. apply andb_prop in Hr. destruct Hr.
+    rewrite (IH1 r1), (IH2 r2); auto.
+  - intros op t Ho Ht IHt r Hr H. destruct r; try discriminate H. cbn [node_eqb pure] in *.
+    apply andb_prop in H. destruct H as [H0 H1]. apply String.eqb_eq in H0. subst.
+    apply andb_prop in Hr. destruct Hr. rewrite (IHt r); auto.
+  - intros l Hl HF r Hr H. destruct r; try discriminate H. rewrite node_eqb_list in H. cbn [pure] in Hr.
+    f_equal. revert l0 Hr H. induction l as [|x l IHl]; intros m Hm H; destruct m as [|y m]; try discriminate H; [reflexivity|].
+    cbn [list_eqb_of forallb] in *. apply andb_prop in H. destruct H as [Hx Hrest].
+    apply andb_prop in Hm. destruct Hm as [Hy Hm]. apply andb_prop in Hl. destruct Hl as [_ Hl].
+    inversion HF as [|x' l' Qx Ql]; subst. rewrite (Qx y Hy Hx), (IHl Hl Ql m Hm Hrest). reflexivity.
+  - intros a i Ha Hi IHa IHi r Hr H. destruct r; try discriminate H. cbn [node_eqb pure] in *.
+    apply andb_prop in H. destruct H as [H1 H2]. apply andb_prop in Hr. destruct Hr.
+    rewrite (IHa r1), (IHi r2); auto.
+  - intros a f t Ha Hf Ht IHa IHf IHt r Hr H. destruct r; try discriminate H. cbn [node_eqb pure] in *.
+    apply andb_prop in H. destruct H as [H H3]. apply andb_prop in H. destruct H as [H1 H2].
+    apply andb_prop in Hr. destruct Hr as [Hr H6]. apply andb_prop in Hr. destruct Hr as [H4 H5].
+    rewrite (IHa r1), (IHf r2), (IHt r3); auto.
 Qed.
 
 Lemma has_call_pure : forall e, pure e = true -> has_call e = false.
 Proof.
-  induction e; intros H; try discriminate H; try reflexivity; cbn [pure has_call] in *.
-  - destruct (binop_opcode op); [|discriminate]. apply andb_prop in H. destruct H.
-    rewrite IHe1, IHe2; auto.
-  - apply andb_prop in H. destruct H. auto.
+  apply (pure_induction (fun e => has_call e = false)); try reflexivity.
+  - intros op c l r _ _ _ H1 H2. cbn [has_call]. rewrite H1, H2. reflexivity.
+  - intros op t _ _ H. exact H.
+  - intros l _ HF. cbn [has_call]. induction HF as [|x r Hx Hr IH]; [reflexivity|]. cbn [existsb]. rewrite Hx, IH. reflexivity.
+  - intros a i _ _ H1 H2. cbn [has_call]. rewrite H1, H2. reflexivity.
+  - intros a f t _ _ _ H1 H2 H3. cbn [has_call]. rewrite H1, H2, H3. reflexivity.
 Qed.
-
-Lemma is_list_pure e : pure e = true -> is_list_node e = false.
-Proof. destruct e; intros H; try discriminate H; reflexivity. Qed.
